@@ -153,7 +153,7 @@ def immutable(inp):
     from pyrtcm.exceptions import RTCMMessageError
     p = bytes.fromhex(inp["payload"])
     try:
-        m = RTCMMessage(payload=p)
+        m = RTCMMessage(payload=p, labelmsm=inp["labelmsm"]) if "labelmsm" in inp else RTCMMessage(payload=p)
     except BaseException as e:  # noqa
         return {"fails": False, "expected": None, "observed": f"constructor raised {type(e).__name__}"}
     snap = (dict(m.__dict__), m.payload, m.identity, str(m), m.serialize())
@@ -162,9 +162,14 @@ def immutable(inp):
             RTCMMessage(payload=bad)
         except BaseException:  # noqa
             pass
-    names = list(m.__dict__) + ["brand_new", "_x", "payload", "identity", "ismsm"] + inp.get("names", [])
+    names = list(m.__dict__) + ["brand_new", "_x", "payload", "identity", "ismsm", "x{y}", "{", "}", "{0}", "%s", "a b"] + inp.get("names", [])
+    class Unprintable:
+        def __str__(self):
+            raise ValueError("this object cannot be printed")
+        __repr__ = __str__
+
     for nm in names:
-        for val in (0, getattr(m, nm, None), "x"):
+        for val in (0, getattr(m, nm, None), "x", Unprintable()):
             try:
                 setattr(m, nm, val)
                 return {"fails": True, "expected": "RTCMMessageError", "observed": f"setattr({nm!r}, {val!r}) succeeded"}
@@ -206,10 +211,11 @@ def parse_static(inp):
 # ---------------------------------------------------------------------------------------
 # reader
 # ---------------------------------------------------------------------------------------
-def _drive(data, cuts, validate, quitonerror, parsed, handler, labelmsm=1, maxsteps=None, as_bytearray=False):
+def _drive(data, cuts, validate, quitonerror, parsed, handler, labelmsm=1, maxsteps=None, as_bytearray=False, stream_kind="plain"):
     from pyrtcm import RTCMReader
-    from spec.streams import FaultyStream
-    st = FaultyStream(data, cuts, as_bytearray=as_bytearray)
+    from spec.streams import FaultyStream, SeekableStream, BadTellStream
+    cls = {"plain": FaultyStream, "seekable": SeekableStream, "bad_tell": BadTellStream}[stream_kind]
+    st = cls(data, cuts, as_bytearray=as_bytearray)
     calls = []
 
     class FalsyHandler(list):  # a callable collector that is empty, hence falsy, when the reader consults it
@@ -218,6 +224,8 @@ def _drive(data, cuts, validate, quitonerror, parsed, handler, labelmsm=1, maxst
     h = None
     if handler == "falsy":
         h = FalsyHandler()
+    elif handler == "returns_true":  # a handler that returns something truthy (a count, the error, True): still just a report
+        h = lambda e: calls.append(type(e).__name__) or len(calls)  # noqa: E731
     elif handler:
         h = lambda e: calls.append(type(e).__name__)  # noqa: E731
     rd = RTCMReader(st, validate=validate, quitonerror=quitonerror, parsed=parsed, labelmsm=labelmsm, errorhandler=h)
@@ -248,7 +256,8 @@ def reader_safety(inp):
     data = bytes.fromhex(inp["data"])
     validate, q, parsed, handler = inp.get("validate", 1), inp.get("quitonerror", 1), inp.get("parsed", True), inp.get("handler", False)
     lm = inp.get("labelmsm", 1)
-    events, calls, st = _drive(data, inp.get("cuts", []), validate, q, parsed, handler, labelmsm=lm, as_bytearray=inp.get("bytearray", False))
+    events, calls, st = _drive(data, inp.get("cuts", []), validate, q, parsed, handler, labelmsm=lm, as_bytearray=inp.get("bytearray", False),
+                               stream_kind=inp.get("stream_kind", "plain"))
     last_end = 0
     for ev in events:
         if ev[0] == "nonterminating":
@@ -284,6 +293,10 @@ def reader_safety(inp):
             return {"fails": True, "expected": "no parsed object when parsed=False", "observed": repr(msg)[:80]}
     if q == 0 and calls:
         return {"fails": True, "expected": "handler never called in ignore mode", "observed": calls[:5]}
+    if inp.get("no_rewind") and getattr(st, "rewound", 0):
+        # C05 "a damaged frame costs exactly that frame", C17 "neither option changes how many bytes are taken for a frame"
+        return {"fails": True, "expected": "every frame, good or damaged, takes its size + 6 bytes off the stream",
+                "observed": f"the reader moved the stream cursor back by {st.rewound} byte(s) to re-scan consumed data"}
     return {"fails": False, "events": len(events)}
 
 
@@ -337,7 +350,7 @@ def table_entry(inp):
     """Re-evaluates one closed table obligation on the current tree."""
     from spec import tablecheck as tc
     name = inp["obligation"]
-    for fn in (tc.wf_lemmas, tc.length_lemmas, tc.sibling_lemmas, tc.msm_table_lemmas, tc.naming_lemmas):
+    for fn in (tc.wf_lemmas, tc.length_lemmas, tc.sibling_lemmas, tc.msm_table_lemmas, tc.naming_lemmas, tc.field_entry_lemmas):
         for n, ok, d in fn():
             if n == name:
                 return {"fails": not ok, "expected": "holds", "observed": d}
@@ -653,6 +666,37 @@ def iteration_protocol(inp):
     if got != want or got3 != want:
         return {"fails": True, "expected": show(want), "observed": show(got if got != want else got3)}
     return {"fails": False}
+
+
+@check
+def shared_stream_readers(inp):
+    """C13: several reader objects over ONE raw (unbuffered) stream, used alternately: together they return every frame of the
+    stream once, in order - a reader takes from the stream exactly the bytes of the frames it returns (no read-ahead)."""
+    import io
+    from pyrtcm import RTCMReader
+    data = bytes.fromhex(inp["data"])
+
+    class Raw(io.RawIOBase):
+        def __init__(self):
+            super().__init__()
+            self.pos = 0
+
+        def readable(self):
+            return True
+
+        def readinto(self, b):
+            n = min(len(b), len(data) - self.pos)
+            b[:n] = data[self.pos:self.pos + n]
+            self.pos += n
+            return n
+    want = [r[0] for r in RTCMReader(io.BytesIO(data), quitonerror=0)]
+    raw = Raw()
+    readers = [RTCMReader(raw, quitonerror=0) for _ in range(inp.get("readers", 2))]
+    got = []
+    for k in range(len(want) + 1):  # the k-th call, on whichever reader, returns the k-th frame; then end of data
+        got.append(readers[k % len(readers)].read()[0])
+    exp = want + [None]
+    return {"fails": got != exp, "expected": [x.hex()[:16] if x else None for x in exp][:6], "observed": [x.hex()[:16] if x else None for x in got][:6]}
 
 
 @check
